@@ -71,13 +71,25 @@ fn golden_monitor_binding(ctx: &Ctx, golden_findings: &mut Vec<Viol>) -> u64 {
     n + hook_fidelity(ctx)
 }
 
+fn hooks_incomplete(ctx: &Ctx, why: &str) -> u64 {
+    crate::dec::HOOKS_COMPLETE.store(false, std::sync::atomic::Ordering::Relaxed);
+    ctx.log(&format!("WARNING hook fidelity: {} - the hooks do not carry the complete decoder state. Falling back to STATELESS exploration: decoders are duplicated by replaying their history, states are never merged, depth bounds are reduced", why));
+    0
+}
+
 /// The hooks are only as good as they are complete: every state within three symbols of the two
 /// roots is duplicated (`verif_clone`) and rebuilt from its snapshot (`verif_restore`), and the
 /// original, the duplicate and the rebuilt decoder must answer four continuations identically.
 /// A field of the decoder that the hooks do not carry shows up here as a machinery exit instead of
 /// silently making E1's state merging unsound.
-fn hook_fidelity(ctx: &Ctx) -> u64 {
+pub fn hook_fidelity(ctx: &Ctx) -> u64 {
     use sml_rs::transport::Decoder;
+    if !crate::dec::hooks_complete() {
+        return 0;
+    }
+    if std::env::var("VERIF_FORCE_STATELESS").is_ok() {
+        return hooks_incomplete(ctx, "forced by VERIF_FORCE_STATELESS");
+    }
     let alpha = full_alphabet();
     let conts: Vec<Vec<Sym>> = vec![vec![Sym::Frame(1)], vec![Sym::PadLie(1), Sym::Fin], vec![Sym::Esc, Sym::Tail(0), Sym::Reset], vec![Sym::B(0x1b), Sym::Esc, Sym::Som, Sym::B(0x00), Sym::Esc, Sym::Tail(3)]];
     let mut n = 0u64;
@@ -97,10 +109,10 @@ fn hook_fidelity(ctx: &Ctx) -> u64 {
                 let snap = node.dec.snap();
                 let restored: Box<dyn Dec> = match Decoder::<Vec<u8>>::verif_restore(&snap) {
                     Some(d) => Box::new(d),
-                    None => crate::report::machinery(&format!("hook fidelity: verif_restore fails on the state after [{}]", path_str(p))),
+                    None => return hooks_incomplete(ctx, &format!("verif_restore fails on the state after [{}]", path_str(p))),
                 };
                 if restored.snap() != snap || node.dec.dup().snap() != snap {
-                    crate::report::machinery(&format!("hook fidelity: snapshot not reproduced after [{}]", path_str(p)));
+                    return hooks_incomplete(ctx, &format!("snapshot not reproduced after [{}]", path_str(p)));
                 }
                 for c in &conts {
                     let mut outs = vec![];
@@ -119,7 +131,7 @@ fn hook_fidelity(ctx: &Ctx) -> u64 {
                         outs.push(o);
                     }
                     if outs[0] != outs[1] || outs[0] != outs[2] {
-                        crate::report::machinery(&format!("hook fidelity: a duplicated / restored decoder behaves differently from its original after [{}] on continuation [{}] - the hooks do not carry the complete decoder state", path_str(p), path_str(c)));
+                        return hooks_incomplete(ctx, &format!("a duplicated / restored decoder behaves differently from its original after [{}] on continuation [{}]", path_str(p), path_str(c)));
                     }
                     n += 1;
                 }
@@ -132,6 +144,8 @@ fn hook_fidelity(ctx: &Ctx) -> u64 {
 }
 
 fn base_cfg(prop: &str, kind: BufKind, depth: usize, report: Vec<&'static str>, ctx: &Ctx) -> Cfg {
+    // stateless fallback (incomplete hooks): no merging, so the bound is what 18^d paths allow
+    let depth = if crate::dec::hooks_complete() { depth } else { depth.min(5) };
     Cfg {
         kind,
         alphabet: full_alphabet(),
@@ -206,6 +220,7 @@ impl Acc {
             .set("outcomes", self.counts.to_json())
             .set("findings_of_other_properties_seen", self.other.to_json())
             .set("runs", J::Arr(self.runs.clone()))
+            .set("hooks_complete", crate::dec::hooks_complete())
             .set("exhaustive", self.exhaustive)
     }
 }
@@ -216,13 +231,13 @@ const RULE: &str = "breadth-first over operation strings (6 byte classes, state-
 /// aborted frames in between; also the concatenation corollary of C14 (decoding s1·s2 equals
 /// decoding s1, then s2 with a new decoder, whenever s1 ends at a boundary).
 fn many_frames(acc: &mut Acc, report: &[&'static str], nmax: usize) {
-    let items: Vec<(usize, usize)> = (1..=nmax).flat_map(|n| (0..3).map(move |v| (n, v))).collect();
+    let items: Vec<(usize, usize)> = (1..=nmax).flat_map(|n| (0..4).map(move |v| (n, v))).collect();
     let parts = par_chunks(items.len() as u64, 4, |a, b| {
         let mut t = Tally::new();
         let mut c = Counts::default();
         for i in a..b {
             let (n, variant) = items[i as usize];
-            let (stream, delivered) = crate::e2::many_frames_stream(n, variant);
+            let (stream, delivered, ends) = crate::e2::many_frames_stream_ends(n, variant);
             for kind in [BufKind::Vec, BufKind::Arr(16)] {
                 let r = crate::mon::mon_run(kind, &stream, &[]);
                 c.inc("multi-frame streams run under the monitor");
@@ -236,6 +251,26 @@ fn many_frames(acc: &mut Acc, report: &[&'static str], nmax: usize) {
                 for (class, what) in &r.findings {
                     if report.iter().any(|p| class.starts_with(p)) {
                         t.add(mk(class, what.clone()));
+                    }
+                }
+                // C14 corollary: decoding s1·s2 = decoding s1, then s2 on a new decoder, for every split at
+                // a transmission boundary (all splits for short streams, three for long ones)
+                if report.iter().any(|p| *p == "C14") && kind == BufKind::Vec {
+                    let whole = crate::fe::fe_push::<Vec<u8>>(&stream).events;
+                    let splits: Vec<usize> = if ends.len() <= 24 { ends.clone() } else { vec![ends[2], ends[ends.len() / 2], ends[ends.len() - 2]] };
+                    for k in splits {
+                        let mut cat = crate::fe::fe_push::<Vec<u8>>(&stream[..k]).events;
+                        cat.extend(crate::fe::fe_push::<Vec<u8>>(&stream[k..]).events);
+                        c.inc("concatenation splits compared");
+                        if cat != whole {
+                            let mut v = mk(
+                                "C14 decoding a concatenation of transmissions differs from concatenating the decodings",
+                                format!("{} frames, variant {}, split after byte {}: whole stream gives {} results ending {}, the two parts give {} results ending {}", n, variant, k, whole.len(), evs_short(&whole[whole.len().saturating_sub(2)..]), cat.len(), evs_short(&cat[cat.len().saturating_sub(2)..])),
+                            );
+                            v.case = J::obj().set("engine", "e1").set("mode", "c14split").set("bytes", hex(&stream)).set("split", k);
+                            t.add(v);
+                            break;
+                        }
                     }
                 }
                 let got: Vec<&Vec<u8>> = r.events.iter().filter_map(|e| if let Ev::Msg(m) = e { Some(m) } else { None }).collect();
@@ -363,6 +398,11 @@ pub fn run_c05_c17(prop: &'static str, tier: Tier) -> ! {
     if tier == Tier::Thorough {
         let two: Vec<Sym> = vec![Sym::Run(0x55, 65535), Sym::Run(0x55, 65536), Sym::Run(0x1b, 65535), Sym::Run(0x1b, 65536)];
         run_cfgs.push(RunCfg { kind: BufKind::Vec, sub: run_sub(), runs: two, max_len: 4, max_runs: 2, report: report.clone(), root_len: 0 });
+    }
+    if !crate::dec::hooks_complete() {
+        for rc in run_cfgs.iter_mut() {
+            rc.max_len = rc.max_len.min(3);
+        }
     }
     for rc in &run_cfgs {
         let (mut tally, mut counts, mut other, mut transitions, mut with_run) = explore_runs(rc, &[]);
@@ -736,7 +776,8 @@ pub fn run_c08(tier: Tier) -> ! {
         if kind == BufKind::Arr(1) {
             roots.push(vec![Sym::Esc, Sym::Som, Sym::B(0x55), Sym::B(0x55)]);
         }
-        let cfg = Cfg { alphabet: plain_bytes(), depth: tier.pick(24, 40), roots, idle_only: true, ..base_cfg("C08", kind, 0, report.clone(), &ctx) };
+        let idle_depth = if crate::dec::hooks_complete() { tier.pick(24, 40) } else { 8 };
+        let cfg = Cfg { alphabet: plain_bytes(), depth: idle_depth, roots, idle_only: true, ..base_cfg("C08", kind, 0, report.clone(), &ctx) };
         let ex = explore(&cfg, &ctx);
         acc.add("idle-phase exploration: every noise string over the byte classes", &cfg, ex);
     }
